@@ -50,7 +50,7 @@ func c14DeniableRushing(t *rapid.T, ev *evProp) {
 			continue
 		}
 		stmts[i] = genStmt(t, gi, fmt.Sprintf("n%d", i))
-		n := &dnode{i: i, seed: genSeed(t, fmt.Sprintf("noderand%d", i)), suite: suite, outbox: make(chan []byte), inbox: make(chan [][]byte)}
+		n := &dnode{i: i, seed: genSeed(t, fmt.Sprintf("noderand%d", i)), suite: suite, outbox: make(chan []byte), inbox: make(chan [][]byte), failAt: -1}
 		nodes[i] = n
 		prv, _ := stmts[i].prover(suite, stmts[i].secrets, false)
 		vrfs := make([]proof.Verifier, k)
